@@ -2,5 +2,5 @@
 From OV Require Import Base.Strs Rep.Ast Rep.Repair Rep.RepairFacts.
 Require Import ExtrOcamlBasic.
 
-Extraction "../ocaml/gen/rep.ml" extract_anchor repair_tbl Z_to_dec read_dec enum_eval lower strip use_int
+Extraction "../ocaml/gen/rep.ml" extract_anchor repair_tbl repair_surface_tbl surface_flag Z_to_dec read_dec enum_eval lower strip use_int
   simple_schema settled_n zero_text nonzero_mantissa mantissa dig_find tbl_float_consistent tbl_int_zero_ok ascii_str.
